@@ -8,3 +8,10 @@ package lossy
 //@ func (*Striped).Add : C01 C03 C12 C20
 //@   assumed C17 is not applicable; recording a read changes nothing the cache operations observe
 //@   ensures [status-range] result == Success || result == Failed || result == Full
+
+//@ func (*Striped).DrainTo : C05
+//@   assumed C17 is not applicable: hands every buffered read, each a node that was recorded by Add (hence not nil), to the consumer; the buffers themselves are invisible to the callers
+//@   modifies node::queueType, node::prev, node::next, node::prevExp, node::nextExp, ghost_inWheel(*), ghost_inDeque(*), policy::windowWeightedSize, policy::mainProtectedWeightedSize, policy::hitsInSample, Linked::*, sketch::*, []uint64::*
+//@   callback consumer: requires [recorded-node] cb_n != nil
+//@   callback consumer: modifies node::queueType, node::prev, node::next, node::prevExp, node::nextExp, ghost_inWheel(*), ghost_inDeque(*), policy::windowWeightedSize, policy::mainProtectedWeightedSize, policy::hitsInSample, Linked::*, sketch::*, []uint64::*
+//@   own-modifies
